@@ -100,7 +100,8 @@ def gen_history(rng, maxlen):
             steps.append(st)
             plan.append(('restore', scope, reply, faulted))
         elif r < 0.85:
-            pat = rng.choice(['a', 'foo*', '*.txt', '*', '/home/u/d/*', 'é', '?', 'zzz', lay.vols[0] + '/*' if lay.vols else '/x'])
+            # (a pattern with a slash that is not its first character is compared with base names, which have none: it selects nothing)
+            pat = rng.choice(['a', 'foo*', '*.txt', '*', '/home/u/d/*', 'é', '?', 'zzz', lay.vols[0] + '/*' if lay.vols else '/x', '*d/a', '*/foo.txt', '*u/*', 'd/e/*'])
             steps.append({'cmd': 'rm', 'argv': [pat]})
             plan.append(('rm', pat))
         else:
@@ -223,11 +224,26 @@ def run(run, thorough):
     by_id = {id(s): p for s, p in items}
     for scn, res in out:
         judge(run, scn, by_id[id(scn)], res)
+    concurrent_puts(run, thorough)
     if items:
         run.sample({'level': 'history', 'commands': [[s['cmd'], s['argv']] for s in scns[0]['steps'] if s['cmd'] != 'list'][:8], 'mounts': scns[0]['mounts']})
 
 
+def concurrent_puts(run, thorough):
+    """two trash-puts of same-named entries at once (the lock-step scheduler of C04): both exit 0, so the trash holds two entries - two
+    complete pairs, each with the Path of its own file; one line each for trash-list"""
+    import p_c04
+    scheds = p_c04.schedules_systematic()
+    for shape, sched in (scheds if thorough else scheds[:16] + scheds[-3:]):
+        scn, steps, victims = p_c04.make_scn(2, ('f', 'f'), 'empty')
+        res = sandbox.execute_concurrent(scn, steps, sched)
+        p_c04.judge(run, dict(scn, steps=steps), res, victims, 'empty', shape, 'concurrent-puts')
+
+
 def replay(run, payload):
+    if 'schedule' in (payload.get('case') or {}):
+        import p_c04
+        return p_c04.replay(run, payload)
     case = payload.get('case') or {}
     scn = case.get('scenario')
     if not scn:
